@@ -363,7 +363,7 @@ impl Check for C16 {
         out
     }
     fn rule() -> &'static str {
-        "4/5 of the runs draw a constructively acyclic single-writer circuit over a test signature of 8 gate families (add, mul, xor, neg, const, and, hash-mix, copy/projection; any arity; Z/2^64) with fan-out through shared nodes, 1/5 a cyclic diagram (refusal clause). Each diagram is evaluated under its own numbering and 3 random renumberings of nodes and hyperedges x (sim/control, vec, 1-3 perturbed schedules) x 1-3 input vectors (special values 0,1,2,2^63,2^64-1 and random). The harness owns the apply callback and records every batch; hyperedge labels carry unique ids. Oracle: result = reference recursive interpreter; over the recorded history every hyperedge interpreted exactly once with exactly its source values, batches in dependency-respecting order; None iff the reference finds a dependency cycle. Non-trivial iff >= 1 hyperedge; distinct = distinct (diagram+inputs fingerprint, device decision fingerprint)."
+        "4/5 of the runs draw a constructively acyclic single-writer circuit over a test signature of 8 gate families (add, mul, xor, neg, const, and, hash-mix, copy/projection; any arity; Z/2^64) with fan-out through shared nodes, 1/5 a cyclic diagram (refusal clause). Each diagram is evaluated under its own numbering and 3 random renumberings of nodes and hyperedges x (sim/control, vec, 1-3 perturbed schedules) x 1-3 input vectors (special values 0,1,2,2^63,2^64-1 and random). The harness owns the apply callback and records every batch; hyperedge labels carry unique ids. Oracle: result = reference recursive interpreter; over the recorded history every hyperedge interpreted exactly once with exactly its source values, batches in dependency-respecting order; None iff the reference finds a dependency cycle, and an operation on or downstream of a cycle (which has no source values) is never handed to the interpreter. Non-trivial iff >= 1 hyperedge; distinct = distinct (diagram+inputs fingerprint, device decision fingerprint)."
     }
     fn assumptions() -> Vec<&'static str> {
         vec![
